@@ -50,58 +50,89 @@ typedef int item_type;
 #define DESTROY_ITEM(p) ((void)0)
 typedef struct sequencer_operation { item_type *elem; int status; } sequencer_operation;
 enum { WAIT = 0, SUCCEEDED = 1, FAILED = 2 };
-size_t g_tag, GH;   /* GH: ghost index of an arbitrary other item */
+size_t g_tag, GH, GH2;   /* GH, GH2: ghost indices (Skolem constants): facts are proved for two arbitrary positions at once */
 static size_t STUB_sequencer(item_type *e) { return g_tag; }
-struct item_buffer;
-static void item_buffer_grow_my_array(struct item_buffer *self, size_t minimum_size);
+#define POW2(x) ((x) != 0 && (((x) & ((x) - 1)) == 0))
+#define initial_buffer_size ((size_t)4)
+#define MAXCAP ((size_t)1 << 16)
+static void *alloc_nofail(size_t n) { void *p = malloc(n); __CPROVER_assume(p != NULL); return p; }
+#define SLOTN(b, j) ((b)->my_array[(j) & ((b)->my_array_size - 1)])
+#define IB_SHAPE(b) (POW2((b)->my_array_size) && (b)->my_array_size >= 4 && (b)->my_array_size <= MAXCAP && (b)->my_head <= (b)->my_tail && (b)->my_tail - (b)->my_head <= (b)->my_array_size && (b)->my_tail < ((size_t)1 << 62))
+/* grow_my_array, at an arbitrary index X: inside [head,tail) its state (and item, if any) is carried over; elsewhere in the new window the slot is empty */
+#define GROW_POST(X) ((X >= self->my_head && X < self->my_tail) \
+      ? (SLOTN(self, X).state == __CPROVER_old(SLOTN(self, X).state) && (SLOTN(self, X).state == no_item || SLOTN(self, X).item == __CPROVER_old(SLOTN(self, X).item))) \
+      : (X - self->my_head < self->my_array_size ==> SLOTN(self, X).state == no_item))
+#define CONTRACT_grow_my_array \
+ __CPROVER_requires(__CPROVER_is_fresh(self, sizeof(*self)) && IB_SHAPE(self) && __CPROVER_is_fresh(self->my_array, self->my_array_size * sizeof(aligned_space_item)) && minimum_size <= 2 * MAXCAP) \
+ __CPROVER_assigns(self->my_array, self->my_array_size, __CPROVER_object_whole(self->my_array)) __CPROVER_frees(self->my_array) \
+ __CPROVER_ensures(POW2(self->my_array_size) && self->my_array_size >= minimum_size && self->my_array_size >= 2 * __CPROVER_old(self->my_array_size) && self->my_array_size <= 4 * MAXCAP) \
+ __CPROVER_ensures(self->my_head == __CPROVER_old(self->my_head) && self->my_tail == __CPROVER_old(self->my_tail)) \
+ __CPROVER_ensures(__CPROVER_is_fresh(self->my_array, self->my_array_size * sizeof(aligned_space_item))) \
+ __CPROVER_ensures(GROW_POST(GH)) __CPROVER_ensures(GROW_POST(GH2))
+#define LOOP_ibgrow_1 __CPROVER_assigns(new_size) __CPROVER_loop_invariant(POW2(new_size) && new_size >= 4 && new_size <= 4 * MAXCAP && new_size >= 2 * self->my_array_size) __CPROVER_decreases(8 * MAXCAP - new_size)
+#define INIT_INV(X) ((X & (new_size - 1)) < i ==> new_array[X & (new_size - 1)].state == no_item)
+#define LOOP_ibgrow_2 __CPROVER_assigns(i, __CPROVER_object_whole(new_array)) __CPROVER_loop_invariant(i <= new_size && INIT_INV(GH) && INIT_INV(GH2)) __CPROVER_decreases(new_size - i)
+#define OLDS(j) (self->my_array[(j) & (self->my_array_size - 1)])
+#define COPY_INV(X) ((X >= self->my_head && X < i) ? (new_array[X & (new_size - 1)].state == OLDS(X).state && (OLDS(X).state == no_item || new_array[X & (new_size - 1)].item == OLDS(X).item)) \
+                                                  : (X - self->my_head < new_size ==> new_array[X & (new_size - 1)].state == no_item))
+#define LOOP_ibgrow_3 __CPROVER_assigns(i, __CPROVER_object_whole(new_array)) \
+   __CPROVER_loop_invariant(i >= self->my_head && i <= self->my_tail && POW2(new_size) && new_size >= 2 * self->my_array_size && new_size <= 4 * MAXCAP && COPY_INV(GH) && COPY_INV(GH2)) __CPROVER_decreases(self->my_tail - i)
+#define LOOP_ibclean_1 __CPROVER_assigns(i, __CPROVER_object_whole(self->my_array)) __CPROVER_loop_invariant(i >= self->my_head && i <= self->my_tail) __CPROVER_decreases(self->my_tail - i)
 #include "item_buffer.inc"
 #include "sequencer.inc"
-#define POW2(x) ((x) != 0 && (((x) & ((x) - 1)) == 0))
-#define MAXCAP ((size_t)1 << 20)
-bool g_grew;
-/* contract stub of grow_my_array (assumed here): capacity is a power of two >= the request and >= 2*old; head/tail untouched; the item and
-   state at the ghost index are carried over; the slot of the tag being pushed, if it lay outside [head,tail), is empty */
-static void item_buffer_grow_my_array(struct item_buffer *self, size_t minimum_size) {
-    size_t old = self->my_array_size, ns = nondet_size_t();
-    __CPROVER_assume(POW2(ns) && ns >= minimum_size && ns >= 2 * old && ns <= 2 * MAXCAP);
-    aligned_space_item *na = malloc(ns * sizeof(aligned_space_item)); __CPROVER_assume(na != NULL);
-    bool gh_in = GH >= self->my_head && GH < self->my_tail, tag_in = g_tag >= self->my_head && g_tag < self->my_tail;
-    if (gh_in) na[GH & (ns - 1)] = self->my_array[GH & (old - 1)];
-    if (tag_in) na[g_tag & (ns - 1)] = self->my_array[g_tag & (old - 1)];
-    else __CPROVER_assume(na[g_tag & (ns - 1)].state == no_item);
-    self->my_array = na; self->my_array_size = ns; g_grew = true;
-}
-static void mk_buffer(struct item_buffer *b) {
-    b->my_array_size = nondet_size_t(); b->my_head = nondet_size_t(); b->my_tail = nondet_size_t();
-    __CPROVER_assume(POW2(b->my_array_size) && b->my_array_size >= 4 && b->my_array_size <= MAXCAP);
-    __CPROVER_assume(b->my_head <= b->my_tail && b->my_tail - b->my_head <= b->my_array_size && b->my_tail < SIZE_MAX - 2 * MAXCAP);
+static struct item_buffer *mk_buffer(void) {
+    struct item_buffer *b = malloc(sizeof(*b)); __CPROVER_assume(b != NULL);
+    b->my_array_size = nondet_size_t(); b->my_head = nondet_size_t(); b->my_tail = nondet_size_t(); __CPROVER_assume(IB_SHAPE(b));
     b->my_array = malloc(b->my_array_size * sizeof(aligned_space_item)); __CPROVER_assume(b->my_array != NULL);
+    return b;
+}
+void h_ib_grow(void) { struct item_buffer *b; size_t m; item_buffer_grow_my_array(b, m); VACUITY_END(); }
+void h_ib_fifo(void) {
+    struct item_buffer *b = mk_buffer();
+    GH = nondet_size_t(); GH2 = b->my_tail;
+    /* queue-shaped buffer: every index of [head,tail) holds an item; slots of the window beyond tail are empty */
+    __CPROVER_assume(!(GH >= b->my_head && GH < b->my_tail) || SLOTN(b, GH).state == has_item);
+    __CPROVER_assume(!(b->my_tail - b->my_head < b->my_array_size) || SLOTN(b, b->my_tail).state == no_item);
+    __CPROVER_assume(b->my_head == b->my_tail || SLOTN(b, b->my_head).state == has_item);
+    size_t h0 = b->my_head, t0 = b->my_tail; bool gh_in = GH >= h0 && GH < t0; item_type gh_item = SLOTN(b, GH).item, head_item = SLOTN(b, h0).item;
+    if (nondet_bool()) {
+        item_type v = nondet_int();
+        bool ok = item_buffer_push_back(b, &v);
+        OBLIGATION(ok && b->my_head == h0 && b->my_tail == t0 + 1 && b->my_tail - b->my_head <= b->my_array_size, "C15.buffer: push_back appends at tail (growing if full)");
+        OBLIGATION(SLOTN(b, t0).state == has_item && SLOTN(b, t0).item == v, "C15.buffer: the pushed item sits at the old tail index");
+        OBLIGATION(!gh_in || (SLOTN(b, GH).state == has_item && SLOTN(b, GH).item == gh_item), "C15.buffer: every item already queued keeps its index and value (FIFO order is the index order)");
+    } else {
+        item_type v = 0; bool ok = item_buffer_pop_front(b, &v);
+        OBLIGATION(ok == (h0 != t0), "C15.buffer: pop_front fails only on an empty buffer");
+        OBLIGATION(!ok || (v == head_item && b->my_head == h0 + 1 && b->my_tail == t0 && SLOTN(b, h0).state == no_item), "C15.buffer: pop_front returns the item at head - the oldest - and removes exactly it");
+        OBLIGATION(!(gh_in && GH != h0) || (SLOTN(b, GH).state == has_item && SLOTN(b, GH).item == gh_item), "C15.buffer: the other items are untouched");
+    }
+    VACUITY_END();
 }
 /* representation invariant at index j: a slot whose in-window index lies outside [head,tail) is empty; states are legal */
-#define RI_EMPTY(b, j) (!((j) - (b)->my_head < (b)->my_array_size && (j) >= (b)->my_tail) || (b)->my_array[(j) & ((b)->my_array_size - 1)].state == no_item)
-#define STATE_OK(b, j) ((b)->my_array[(j) & ((b)->my_array_size - 1)].state >= no_item && (b)->my_array[(j) & ((b)->my_array_size - 1)].state <= reserved_item)
+#define RI_EMPTY(b, j) (!((j) - (b)->my_head < (b)->my_array_size && (j) >= (b)->my_tail) || SLOTN(b, j).state == no_item)
+#define STATE_OK(b, j) (SLOTN(b, j).state >= no_item && SLOTN(b, j).state <= reserved_item)
 static void push_common(bool tagmax) {
-    struct item_buffer b; mk_buffer(&b);
-    size_t tag = g_tag = nondet_size_t(); GH = nondet_size_t();
-    if (tagmax) __CPROVER_assume(tag == SIZE_MAX); else __CPROVER_assume(tag < SIZE_MAX && (tag < b.my_head || tag - b.my_head < MAXCAP));
-    __CPROVER_assume(RI_EMPTY(&b, tag) && RI_EMPTY(&b, GH) && STATE_OK(&b, tag) && STATE_OK(&b, GH));
+    struct item_buffer *b = mk_buffer();
+    size_t tag = g_tag = nondet_size_t(); GH = nondet_size_t(); GH2 = tag;
+    if (tagmax) __CPROVER_assume(tag == SIZE_MAX); else __CPROVER_assume(tag < SIZE_MAX && (tag < b->my_head || tag - b->my_head < MAXCAP));
+    __CPROVER_assume(RI_EMPTY(b, tag) && RI_EMPTY(b, GH) && STATE_OK(b, tag) && STATE_OK(b, GH));
     item_type v = nondet_int(); sequencer_operation op; op.elem = &v; op.status = WAIT;
-    size_t head0 = b.my_head, tail0 = b.my_tail;
-    bool gh_valid0 = GH >= head0 && GH < tail0 && item_buffer_element(&b, GH)->state != no_item; item_type gh_item0 = item_buffer_element(&b, GH)->item; int gh_state0 = item_buffer_element(&b, GH)->state;
-    bool tag_valid0 = tag >= head0 && tag < tail0 && item_buffer_element(&b, tag)->state != no_item;
-    g_grew = false;
-    bool ok = sequencer_internal_push(&b, &op);
+    size_t head0 = b->my_head, tail0 = b->my_tail;
+    bool gh_valid0 = GH >= head0 && GH < tail0 && SLOTN(b, GH).state != no_item; item_type gh_item0 = SLOTN(b, GH).item; int gh_state0 = SLOTN(b, GH).state;
+    bool tag_valid0 = tag >= head0 && tag < tail0 && SLOTN(b, tag).state != no_item;
+    bool ok = sequencer_internal_push(b, &op);
     OBLIGATION(ok == (op.status == SUCCEEDED) && (ok || op.status == FAILED), "C15.seq: status matches the result");
     OBLIGATION(!(tag < head0) || !ok, "C15.seq: a tag below head (already emitted) is rejected");
     OBLIGATION(!tag_valid0 || !ok, "C15.seq: an occupied tag is rejected (no duplicate)");
-    OBLIGATION(b.my_head == head0 && b.my_tail >= tail0 && b.my_tail - b.my_head <= b.my_array_size, "C15.seq: head is untouched, tail only grows, the window fits the array");
+    OBLIGATION(b->my_head == head0 && b->my_tail >= tail0 && b->my_tail - b->my_head <= b->my_array_size, "C15.seq: head is untouched, tail only grows, the window fits the array");
     if (ok) {
-        OBLIGATION(tag >= b.my_head && tag < b.my_tail, "C15.seq: an accepted item lies inside [head,tail)");
-        OBLIGATION(item_buffer_element(&b, tag)->state == has_item && item_buffer_element(&b, tag)->item == v, "C15.seq: an accepted item sits at its own tag");
+        OBLIGATION(tag >= b->my_head && tag < b->my_tail, "C15.seq: an accepted item lies inside [head,tail)");
+        OBLIGATION(SLOTN(b, tag).state == has_item && SLOTN(b, tag).item == v, "C15.seq: an accepted item sits at its own tag");
     } else
-        OBLIGATION(b.my_tail == tail0 || tag >= head0, "C15.seq: a rejected old tag changes nothing");
+        OBLIGATION(b->my_tail == tail0 || tag >= head0, "C15.seq: a rejected old tag changes nothing");
     if (gh_valid0 && GH != tag)
-        OBLIGATION(item_buffer_element(&b, GH)->state == gh_state0 && item_buffer_element(&b, GH)->item == gh_item0, "C15.seq: every other parked item keeps its slot, value and state");
+        OBLIGATION(SLOTN(b, GH).state == gh_state0 && SLOTN(b, GH).item == gh_item0, "C15.seq: every other parked item keeps its slot, value and state");
 }
 void h_seq_push(void) { push_common(false); VACUITY_END(); }
 void h_seq_push_tagmax(void) { push_common(true); VACUITY_END(); }
